@@ -1,25 +1,33 @@
 import QV.Driver.Server
 import QV.Driver.Rrl
 import QV.Driver.SrvSafe
+import QV.Driver.ServerTsig
 import QV.Model.ServerRrl
 
 /-!
   group `srvsafe`, op `srvh` (C01 with response rate limiting):
 
-    srvh <payload> <catalog> <ne> <nx> <er> <window> <slip> <v4len> <v6len> <size> <steps>
+    srvh <payload> <catalog> <keys> <ne> <nx> <er> <window> <slip> <v4len> <v6len> <size> <steps>
 
   one whole history of requests against ONE server with RRL enabled; model =
   `QV.Server.handleMessageRrl` (lean/QV/Model/ServerRrl.lean) threaded through the table. steps
-  (`;`-separated): `s<secs>` = `verif_rrl_shift(secs)`; `q,<src>,<u|t>,<reqhex>,<rcode>,<cands>` = one
-  request, with the recorded environment inputs (DESIGN §3.5): `cands` = `/`-separated
+  (`;`-separated; format at the top of harness/src/g_srvsafe.rs):
+    `s<secs>` = `verif_rrl_shift(secs)`;
+    `q,<src>,<u|t>,<reqhex>,<rcode>,<rnd>,<cands>` = one request as given;
+    `g,<src>,<u|t>,<reqhex>,<sign>,<now>,<rcode>,<rnd>,<cands>` = one request signed (by the spec signer
+      of group `srvtsig`, at the recorded second `now`, which is also the model's wall clock);
+  with the recorded environment inputs (DESIGN §3.5): `cands` = `/`-separated
   `namehex:idx:dest:qhash` — the probe of the real table's `RandomState` (bucket index, masked
   destination, 32-bit name hash) for the key (source, name, category of `rcode`), for every name
-  the handler could hash. The model itself decides which name is hashed (source of synthesis,
-  QNAME, root), what the category is and whether the response is subject to RRL at all.
-  Times: the model's clock is (sum of the shifts so far)·10⁹ ns (the harness discards histories
-  that took more than 0.4 s of real time). Result: `resp;resp;…` (hex | none | panic), one per
-  request; the time signed of an unsigned TSIG error record is made relative to the clock, as in `srvq`.
-  Spec column: `?;?;…` — anything but a panic (C01).
+  the handler could hash; `rnd` = the outcome of `should_slip`'s random draw (read by the model only
+  for slip ≥ 2 and only when it has decided that the response is limited). The model itself decides
+  which name is hashed (source of synthesis, QNAME, root), what the category is and whether the
+  response is subject to RRL at all.
+  Times: the model's monotonic clock is (sum of the shifts so far)·10⁹ ns (the harness discards
+  histories that took more than 0.4 s of real time). Result: one token per request: `q` steps
+  `hex | none | panic` (the time signed of an unsigned TSIG error record made relative to the clock,
+  as in `srvq`); `g` steps the canonical text of group `srvtsig` (times relative, MAC replaced by the
+  verdict of an independent RFC 8945 verification). Spec column: `?;?;…` — anything but a panic (C01).
 -/
 namespace QV.Driver
 open QV QV.Spec.Server
@@ -35,9 +43,13 @@ structure Cand where
 structure QStep where
   srcHex : String
   udp : Bool
+  /-- the octets handed to the server (a `g` step: after signing) -/
   req : Bytes
   rcode : Nat
+  rnd : Bool
   cands : List Cand
+  /-- `g` steps: the wall-clock second and the request MAC -/
+  signed : Option (Nat × List UInt8) := none
 
 inductive Step where
   | shift (secs : Nat)
@@ -50,15 +62,31 @@ def parseCand (s : String) : Option Cand :=
     pure ⟨n.toList, ← i.toNat?, ← d.toNat?, ← h.toNat?⟩
   | _ => none
 
+def parseCands (cands : String) : Option (List Cand) :=
+  if cands = "" then some [] else (cands.splitOn "/").mapM parseCand
+
+def parseSrc (src : String) : Option Unit := do
+  let _ ← RrlDrv.hexNat src
+  if src.length ≠ 8 ∧ src.length ≠ 32 then none else pure ()
+
 def parseStep (s : String) : Option Step :=
   if s.startsWith "s" then (s.drop 1).toString.toNat?.map Step.shift
   else match s.splitOn "," with
-    | ["q", src, t, req, rc, cands] => do
+    | ["q", src, t, req, rc, rnd, cands] => do
       let udp ← if t = "u" then some true else if t = "t" then some false else none
-      let _ ← RrlDrv.hexNat src
-      if src.length ≠ 8 ∧ src.length ≠ 32 then none
-      let cs ← if cands = "" then some [] else (cands.splitOn "/").mapM parseCand
-      pure (.q { srcHex := src, udp, req := ← unhex req, rcode := ← rc.toNat?, cands := cs })
+      parseSrc src
+      pure (.q { srcHex := src, udp, req := ← unhex req, rcode := ← rc.toNat?, rnd := rnd = "1",
+                 cands := ← parseCands cands })
+    | ["g", src, t, req, sign, now, rc, rnd, cands] => do
+      let udp ← if t = "u" then some true else if t = "t" then some false else none
+      parseSrc src
+      let r ← SrvT.unhexL req
+      if r.length < 12 then none
+      let sp ← SrvT.parseSign (sign.replace "~" ",")
+      let now ← now.toNat?
+      let sg := Spec.ServerTsig.signRequest SrvT.hmReal r sp now
+      pure (.q { srcHex := src, udp, req := sg.msg.toArray, rcode := ← rc.toNat?, rnd := rnd = "1",
+                 cands := ← parseCands cands, signed := some (now, Spec.ServerTsig.priorMac sg) })
     | _ => none
 
 /-- the table's `RandomState` as far as the probes of this history reveal it -/
@@ -76,34 +104,38 @@ def mkRandomState (qs : List QStep) : Rrl.RandomState :=
   { hashName := fun n => (names.lookup n).getD 0
     hashKey := fun k => (keys.lookup k).getD 0 }
 
-def runModel (cfg : Server.Cfg) (rs : Rrl.RandomState) :
+def runModel (cfg : Server.Cfg) (keys : List Spec.ServerTsig.KeyCfg) (rs : Rrl.RandomState) :
     List Step → Rrl.Rrl → Nat → List String → List String
   | [], _, _, acc => acc.reverse
-  | .shift secs :: rest, r, t, acc => runModel cfg rs rest r (t + Rrl.shiftNanos secs) acc
+  | .shift secs :: rest, r, t, acc => runModel cfg keys rs rest r (t + Rrl.shiftNanos secs) acc
   | .q q :: rest, r, t, acc =>
     let tr := if q.udp then Server.Transport.udp else .tcp
-    match Server.handleMessageRrl cfg tr 1700000000 65535 q.req rs r (RrlDrv.modelSrc q.srcHex) t false with
-    | .ok (some b, r') => runModel cfg rs rest r' t (hexOf (maskTime b 1700000000) :: acc)
-    | .ok (none, r') => runModel cfg rs rest r' t ("none" :: acc)
-    | _ => runModel cfg rs rest r t ("panic" :: acc)
+    let now := match q.signed with | some (n, _) => n | none => 1700000000
+    let show_ (b : Bytes) : String := match q.signed with
+      | some (n, prior) => SrvT.canonicalT b n keys prior
+      | none => hexOf (maskTime b now)
+    match Server.handleMessageRrl cfg tr now 65535 q.req rs r (RrlDrv.modelSrc q.srcHex) t q.rnd with
+    | .ok (some b, r') => runModel cfg keys rs rest r' t (show_ b :: acc)
+    | .ok (none, r') => runModel cfg keys rs rest r' t ("none" :: acc)
+    | _ => runModel cfg keys rs rest r t ("panic" :: acc)
 
 end SrvRrl
 
 def srvrrlHandler : Handler := fun op args =>
   match op, args with
-  | "srvh", [payload, cat, ne, nx, er, w, slip, v4, v6, size, steps] =>
-    match payload.toNat?, parseCatalog cat, [ne, nx, er, w, slip, v4, v6, size].mapM String.toNat?,
-          (steps.splitOn ";").mapM SrvRrl.parseStep with
-    | some p, some c, some [ne, nx, er, w, slip, v4, v6, size], some sts =>
+  | "srvh", [payload, cat, keys, ne, nx, er, w, slip, v4, v6, size, steps] =>
+    match payload.toNat?, parseCatalog cat, SrvT.parseKeys keys,
+          [ne, nx, er, w, slip, v4, v6, size].mapM String.toNat?, (steps.splitOn ";").mapM SrvRrl.parseStep with
+    | some p, some c, some ks, some [ne, nx, er, w, slip, v4, v6, size], some sts =>
       match c.mapM mkZoneEntry, Rrl.RrlParams.configure ne nx er w slip v4 v6 size with
       | some zs, .ok params =>
-        let cfg : Server.Cfg := { payload := p, zones := zs }
+        let cfg : Server.Cfg := { payload := p, zones := zs, keys := SrvT.mkKeys ks }
         let qs := sts.filterMap fun s => match s with | .q q => some q | _ => none
         let rs := SrvRrl.mkRandomState qs
-        let toks := SrvRrl.runModel cfg rs sts (Rrl.Rrl.new params 0) 0 []
+        let toks := SrvRrl.runModel cfg ks rs sts (Rrl.Rrl.new params 0) 0 []
         some (";".intercalate toks, ";".intercalate (toks.map fun _ => "?"))
       | _, _ => some bad
-    | _, _, _, _ => some bad
+    | _, _, _, _, _ => some bad
   | _, _ => none
 
 end QV.Driver
